@@ -17,7 +17,7 @@ CONFIGS = logh.CONFIGS
 
 def merge_harness(bits, cfg, width=1, depth=1, base_sym=False, reserved_only=False):
     C = cmh.cm()
-    ex = Executor()
+    ex = Executor(loop_bound=300)
     st = State()
     a = cmh.SymCM(st, "a", bits, width, depth)
     b = cmh.SymCM(st, "b", bits, width, depth)
@@ -170,6 +170,11 @@ def c09_obligations(tier):
         for grp in range(realmode.N_IDEAL_GROUPS):
             obs.append(common.Ob(f"log{bits} merge, real-idealised lemma group {grp} (bracket / nearest / identity / monotone / ceiling / casts / no wrap)", realmode.ob_merge_ideal, (bits, tmo, grp), hard_s=tmo / 1000 * 3 + 120,
                                  bounds={"bits": bits, "num_reserved, max_count, base": "symbolic (base > 1 real)", "counters": "all pairs (symbolic)"}))
+        umax_ = logh.UMAX[bits]
+        for pin in ((umax_, 0), (0, umax_), (umax_, umax_), (umax_ - 1, 0), (umax_, 1)):
+            for grp in ("never below either input", "decoded sum >= max_count => ceiling", "commutative"):
+                obs.append(common.Ob(f"log{bits} merge at the pinned counters {pin} (real-idealised): {grp}", realmode.ob_merge_ideal, (bits, tmo, grp, pin), hard_s=tmo / 1000 * 3 + 120,
+                                     bounds={"bits": bits, "counters": list(pin), "num_reserved, max_count, base": "symbolic"}))
         obs.append(common.Ob(f"witness: log{bits} idealised harness reaches the rounding-up and the saturating region", realmode.ob_merge_ideal, (bits, tmo, "WITNESS"), kind="witness", hard_s=tmo / 1000 * 3 + 120))
     bounds = {"configs(max_count,num_reserved)": {k: [list(c) for c in v] for k, v in cfgs.items()}, "cells": "1x1 tables: every pair of counters symbolic; rows/columns are independent in the kernel (checked for linear at larger shapes)"}
     stubs = ["float64 ** and np.log -> uninterpreted in IEEE mode (axiom pow(x,+-0)=1); in real-idealised mode pow/log over the reals with: pow(b,0)=1, pow(b,x+1)=b*pow(b,x), log(pow(b,x))=x*log(b), floor-of-log bracket b^n <= X < b^(n+1)"]
